@@ -310,6 +310,61 @@ CASES = {
 }
 
 
+# ---- minimal receivers: the same calls from a state in which the containers are still EMPTY ------------------
+# (a copy protocol that treats empty containers specially - "nothing to duplicate" - only shows from here)
+def r_select_min(d):
+    t = T()
+    return QS[d].from_(t).select(t.a)
+
+
+def r_insert_min(d):
+    return QS[d].into(T()).insert(1, 2)
+
+
+def r_update_min(d):
+    t = T()
+    return QS[d].update(t).set(t.a, 1)
+
+
+def r_setop_min(d):
+    t, u = T(), U()
+    return QS[d].from_(t).select(t.a).union(QS[d].from_(u).select(u.a))
+
+
+def r_case_min(d):
+    return Case()
+
+
+def r_agg_min(d):
+    return fn.Sum(T().a)
+
+
+def r_analytic_min(d):
+    return an.Rank()
+
+
+def r_window_min(d):
+    return an.Sum(T().a)
+
+
+MINIMAL = {r_select: r_select_min, r_insert: r_insert_min, r_update: r_update_min, r_setop: r_setop_min,
+           r_create: r_create_bare, r_case: r_case_min, r_agg: r_agg_min, r_analytic: r_analytic_min,
+           r_window: r_window_min}
+
+
+def sub1(v):
+    return QS[0].from_(Table("x" + str(v))).select(Field("k"))
+
+
+def _minimal_cases():
+    for name, (factory, call) in list(CASES.items()):
+        if factory in MINIMAL:
+            if name in ("union", "union_all", "intersect", "except_of", "minus"):
+                # one select item on the minimal receiver: the operand needs one as well
+                call = (lambda m: (lambda R, s, n, v: getattr(R, m)(sub1(v))))(name)
+            CASES["min:" + name] = (MINIMAL[factory], call)
+
+
 def _term_cases():
     for k in range(NTERMS):
         if k == 16:
@@ -320,6 +375,7 @@ def _term_cases():
             CASES["as_%02d" % k] = ((lambda k: (lambda d: r_terms(k)))(k), lambda R, s, n, v: R.as_(leaf(s, v, "al")))
 
 
+_minimal_cases()
 _term_cases()
 CASE_NAMES = sorted(CASES)
 # which cases make sense for which dialect class
@@ -331,6 +387,8 @@ DIALECT_FREE = {"create_table", "drop_table", "if_exists", "table_for_", "table_
 
 
 def allowed(name, d):
+    if name.startswith("min:"):
+        name = name[4:]
     if name in ONLY:
         return d in ONLY[name]
     if name in DIALECT_FREE or name.startswith("rt_") or name.startswith("as_"):
@@ -494,7 +552,8 @@ def pair_points(tier):
     if tier != "thorough":
         # quick: every method followed by / branched with the container-extending core of its family
         core = {"select", "where", "orderby", "join_on", "insert", "set", "so_union", "so_orderby", "ct_columns", "case_when",
-                "an_over"}
+                "an_over", "min:select", "min:orderby", "min:insert", "min:so_union", "min:case_when", "min:an_over",
+                "min:force_index", "min:modifier", "min:distinct_on"}
     else:
         core = None
     pts = []
@@ -514,7 +573,7 @@ def pair_points(tier):
     prop="C01",
     cubes=lambda tier: {"pair": pair_points(tier)},
     bounds={"quick": {"L": 1, "N": 9}, "thorough": {"L": 2, "N": 99}},
-    timeout={"quick": 150, "thorough": 600},
+    timeout={"quick": 300, "thorough": 900},
     witness=[dict(pair=(CASE_NAMES.index("force_index"), CASE_NAMES.index("select")), d=1, s="i", n=3)],
     doc="method m on the receiver, then a different method m' both branched off the same receiver and continued on the "
         "first child (all ordered pairs within a receiver family in thorough; m' over the container-extending core in quick)",
